@@ -188,6 +188,7 @@ func init() {
 	add(t("STATS", "STATS", FRead, w("STATS"), k("fleet"), k("nokey")))
 	add(t("JGET", "JGET", FRead, w("JGET"), k("fleet"), id("jdoc")))
 	add(t("JGET.path", "JGET", FRead, w("JGET"), k("fleet"), id("jdoc"), pa("a.b")))
+	add(t("JGET.esc", "JGET", FRead, w("JGET"), k("fleet"), id("jdoc"), pa("esc")))
 	add(t("JGET.raw", "JGET", FRead, w("JGET"), k("fleet"), id("jdoc"), pa("a"), w("RAW")))
 	add(t("JGET.geo", "JGET", FRead, w("JGET"), k("fleet"), id("feat1"), pa("properties.name")))
 	// ---- scans and searches
@@ -634,7 +635,7 @@ func StateCommands(name string) [][]string {
 		{"SET", "fleet", "box1", "BOUNDS", "33.1", "-112.4", "33.2", "-112.3"},
 		{"SET", "fleet", "str1", "STRING", "hello"},
 		{"SET", "fleet", "h1", "FIELD", "flag", "true", "FIELD", "nn", "null", "HASH", "9tbnthxzr"},
-		{"SET", "fleet", "jdoc", "STRING", `{"a":{"b":1},"s":"x"}`},
+		{"SET", "fleet", "jdoc", "STRING", `{"a":{"b":1},"s":"x","esc":"q\"b\\s \u0001\u0007\u001b\u007f\n\t é世 \udb40\udc01\u2028<&>"}`},
 		{"SET", "fleet", `q"uo\te`, "FIELD", `f"1`, `v"\1`, "POINT", "33.45", "-112.25"},
 		{"SET", "fleet", "nl\nid\x01", "FIELD", "speed", "1e2", "POINT", "33.46", "-112.26"},
 		{"SET", "fleet", "bad\xff\xfeutf", "STRING", "val\xffue \"q\" \\ \n end"},
